@@ -45,6 +45,9 @@ def _strategy():
         return {"seed_key": seed_key,
                 "seeds": draw(st.lists(st.one_of(st.sampled_from([0x0000, 0xFFFF, 1, 0xFFFE, 0x8000, 0x00FF]), st.integers(0, 0xFFFF)), min_size=1, max_size=3)),
                 "ops": ops, "final_probe": True, "sas": draw(st.sampled_from([[0xF9, 0xD4, 0xA7], [0xF9, 0xD4, 0xA7], [0x00, 0xD4, 0xA7], [0x01, 0x00, 0xFD], [0xFD, 0x80, 0x00], [0x7F, 0xFD, 0x01]])),
+                # (server-side write times are not generated: the server's DM14 code updates its state after several of its writes;
+                # two such defects were repaired - D40 (client), D41 (server, write data) - the rest is a documented limit, DESIGN.md 8)
+                "tx": draw(st.sampled_from([[0.0, 0.0], [0.0, 0.0], [0.0015, 0.0], [0.003, 0.0], [0.0005, 0.0]])),
                 "lat": {"C": [draw(st.sampled_from([0.0002, 0.001, 0.005]))], "S": [draw(st.sampled_from([0.0002, 0.001, 0.005]))]}}
     return build()
 
